@@ -55,12 +55,18 @@ extern int gv_tab_d, gv_tab_b;
 #pragma CPROVER check push
 #pragma CPROVER check enable "signed-overflow"
 #pragma CPROVER check enable "div-by-zero"
-/* the documented count is the number of band positions from (1,1) on */
+/* the documented count is the number of band positions from (1,1) on.
+   This lemma is USED INLINE in finish_cov (GV_INST(hypothesis, conclusion) on the program's own variables, i.e. assert
+   the hypothesis, assume the conclusion -- exactly what replacing a call of the lemma function by its contract does):
+   passed through a function parameter, idim*(iband+1) would be a second 32-bit multiplier that the SAT solver has to
+   prove equivalent to the program's (measured: > 100 s); on the program's variables CBMC shares the expression. */
+#define GKC_LEMMA_TOTAL_HYP(d, b) (0 <= (b) && (b) < (d) && GKC_TAB_FOR(d, b))
+#define GKC_LEMMA_TOTAL_CONCL(d, b) (GKC_TOTAL(d, b) == GKC_REM(d, b, 1, 1) && GKC_REM(d, b, 1, 1) >= 1)
 void gv_lemma_cov_total(int d, int b)
 __CPROVER_requires(GV_MACHINE_BOUND(d <= 32768))
-__CPROVER_requires(0 <= b && b < d && GKC_TAB_FOR(d, b))
+__CPROVER_requires(GKC_LEMMA_TOTAL_HYP(d, b))
 __CPROVER_assigns()
-__CPROVER_ensures(GKC_TOTAL(d, b) == GKC_REM(d, b, 1, 1) && GKC_REM(d, b, 1, 1) >= 1);
+__CPROVER_ensures(GKC_LEMMA_TOTAL_CONCL(d, b));
 
 /* GKC_REM really counts: at a band position at least that position is left, and stepping to the next position
    (same row, or the diagonal element of the next row) leaves exactly one less; with GKC_REM(d,b,d+1,d+1) == 0
